@@ -217,6 +217,8 @@ def bind_args(self, fi, pos, kw, fr, skip_first=False):
     if a.vararg:
         bound[a.vararg.arg] = T.mk_tuple(extra)
     if a.kwarg:
+        # (the order in which the caller spells its extra keywords is not an observable of the properties)
+        kwextra.sort(key=lambda kv: repr(kv[0].key))
         bound[a.kwarg.arg] = Term.of(Atom('dict', *kwextra))
     return bound
 
